@@ -13,7 +13,8 @@ Definition store := cdict.
    __weakref__); i_dict = None when the layout has no instance __dict__ *)
 Record inst := { i_slotnames : list attr; i_slots : store; i_dict : option store }.
 
-Inductive sexn := SAttribute | SType.
+(* SFrozen: dataclasses.FrozenInstanceError; SUnmodelled: the model does not describe this path *)
+Inductive sexn := SAttribute | SType | SFrozen | SUnmodelled.
 Inductive sres := SOk (i : inst) | SRaise (e : sexn).
 
 (* object.__setattr__(self, k, v): a member slot takes it; otherwise the instance __dict__;
